@@ -399,6 +399,14 @@ def c08_population(seed, n):
                        start_year=ka.start_year)
         a = rename_secs(gen.HistoryGen(rng, ka).gen(), SECS_A)
         b = rename_secs(gen.HistoryGen(rng, kb).gen(), SECS_B)
+        if rng.random() < 0.12:
+            # a security whose gains and losses cancel exactly over two years (total 0, yearly figures not 0)
+            y0 = rng.randint(2012, 2022)
+            g = Fraction(rng.randint(1, 160), 4)
+            z = [mkrow("BZERO", "%d-02-03" % y0, "Buy", "", shares="10", aps="10", cur="CAD"),
+                 mkrow("BZERO", "%d-06-03" % y0, "Sell", "", shares="5", aps=gen.dec_str(10 + g / 5, 6), cur="CAD"),
+                 mkrow("BZERO", "%d-06-03" % (y0 + 1), "Sell", "", shares="5", aps=gen.dec_str(10 - g / 5, 6), cur="CAD")]
+            b = {"rows": list(b["rows"]) + z, "init": b["init"], "features": b.get("features", [])}
         if rng.random() < 0.35:
             respell_affiliates(rng, a["rows"])
             respell_affiliates(rng, b["rows"])
